@@ -268,14 +268,15 @@ bool FilePersister::put(const unsigned seqnum, const f8String& what)
 		return false;
 	}
 	IPrec iprec(seqnum, offset, static_cast<unsigned>(what.size()));
-	if (write (_iod, static_cast<void *>(&iprec), sizeof(IPrec)) != sizeof(IPrec))
-	{
-		glout_error << "Error: could not write index record for seqnum " << seqnum << " to: " << _dbIname;
-		return false;
-	}
+	// data first, then the index record that refers to it: a crash in between must not leave an index record without its data
 	if (write (_fod, what.data(), static_cast<unsigned>(what.size())) != static_cast<ssize_t>(what.size()))
 	{
 		glout_error << "Error: could not write record for seqnum " << seqnum << " to: " << _dbFname;
+		return false;
+	}
+	if (write (_iod, static_cast<void *>(&iprec), sizeof(IPrec)) != sizeof(IPrec))
+	{
+		glout_error << "Error: could not write index record for seqnum " << seqnum << " to: " << _dbIname;
 		return false;
 	}
 
